@@ -73,6 +73,8 @@ def gen_acts(rng, rs, cfg, nacts=80, p_act=0.35, kinds=None, small_buffers=True)
             kinds.append('reject')
         if not small_buffers:
             kinds.append('unput')
+    if cfg.yymore and cfg.array and 'more' in kinds and 'less' in kinds:
+        kinds = [k for k in kinds if k != 'less']     # known finding F08 (probed separately by C08)
     acts = {}
     depth = 0
     nret = 0
